@@ -278,7 +278,7 @@ func runInterp() {
 		input := map[string]any{"literal": c.literal(), "segs": strings.Join(c.Segs, " ")}
 		g := gres[i]
 		gobs := parseInterpOut(g.Out)
-		if g.Kind != "ran" || !gobs.ok || gobs.val != expVal || gobs.log != expLog {
+		if !goOracleOff() && (g.Kind != "ran" || !gobs.ok || gobs.val != expVal || gobs.log != expLog) {
 			oracleDisagreement(i, c.literal(), fmt.Sprintf("%q log=%s", expVal, expLog), g.Kind+" "+g.Out+" "+g.Detail)
 		}
 		agree++
